@@ -84,8 +84,23 @@ def gen_seq(ctx, k):
                 dpt = 1 if a[1] == 0 else 2 if a[2] == 0 else 3
                 parent = tuple(list(a[:dpt - 1]) + [0] * (3 - (dpt - 1)))
                 data = bytes([2, a[dpt - 1]]) + L['uid']
+                # the last thing it reports is about one segment ...
+                seg_ = rng.choice(L['segments'])
+                t0 = rng.choice(cfg['trains'])
+                before = model.build_msg(a, 0, C('MSG_BM_ADDRESS'), bytes([seg_['address'], t0['addr'][1], t0['addr'][0] & 0x3F]))
+                sc.add(up(before), 'quiesce', f'snap pre{i}')
                 m.on_uplink(parent, C('MSG_NODE_LOST'), data)
                 sc.add(f'bus delnode {a[0]}.{a[1]}.{a[2]}', up(model.build_msg(parent, 0, C('MSG_NODE_LOST'), data)), 'quiesce', 'flush', 'quiesce', f'snap lost{i}')
+                # ... and whoever sends from that address afterwards (about the same detector number) is an unknown node, or - when another
+                # configured detector logs on there - that other board: nothing of it is booked to the board that left
+                others = [b for b in cfg['boards'] if not m.connected(b['id']) and b is not L and b.get('segments') and not cfggen.is_interface(b)]
+                if others and rng.random() < 0.5:
+                    O = rng.choice(others)
+                    nd = bytes([3, a[dpt - 1]]) + O['uid']
+                    m.on_uplink(parent, C('MSG_NODE_NEW'), nd)
+                    sc.add(f'bus node {a[0]}.{a[1]}.{a[2]} {O["uid"].hex()}', up(model.build_msg(parent, 0, C('MSG_NODE_NEW'), nd)), 'quiesce', 'flush', 'quiesce')
+                for rep in (bytes([seg_['address']]), bytes([seg_['address'], 0, 0])):
+                    sc.add(up(model.build_msg(a, 0, C('MSG_BM_FREE') if len(rep) == 1 else C('MSG_BM_ADDRESS'), rep)), 'quiesce', f'snap after{i}_{len(rep)}')
         msgs = []
         for _ in range(1 if rng.random() < 0.8 else rng.randrange(2, 4)):
             g = gen_bm(rng, m, cfg)
